@@ -362,7 +362,7 @@ theorem encodes {pb : Problem} (hwf : WellFormed pb) :
   · intro c hc
     simp only [loc, List.mem_append] at hc
     rcases hc with (hc | hc) | hc
-    · exact (na_plain pb.height pb.width (default : Asg)).below c hc
+    · exact (na_plain pb.height pb.width ⟨fun _ => false, fun _ => 0⟩).below c hc
     · exact (roomCs_wt hwf c hc).2
     · exact (lineCs_wt c hc).2
   · intro σ g hg
